@@ -1,1 +1,169 @@
-def main : IO Unit := pure ()
+import NfcVerif.Model.PeerDep
+import NfcVerif.Model.PeerPax
+import NfcVerif.Model.PeerDispatch
+/-!
+Line protocol of the C07 model driver
+
+  dep <fix> <b106> <req> <frame>        -> ok <pdu text> | exc <Name>          decode_frame + XXX.decode
+  rtox <fix> <data>                     -> ok <n> | exc <Name>                 Initiator.exchange: RTOX value
+  trtox <fix> <data>                    -> ok <n|none> | exc <Name>            Target.send_timeout_extension
+  desel <fix> <b106> <frame|none>       -> ok none | ok dep | exc <Name>       Target.exchange after DSL/RLS
+  gb <fix> <general bytes|none>         -> ok False | ok True ver=.. | exc ..  llc.activate
+  pdu <octets>                          -> ok <pdu text> | exc DecodeError     pdu.decode
+  t3 <fix> <idm+pmm+sys> <store> <cmd>  -> ok <rsp|none> store=.. calls=.. | exc <Name>
+  sap <f39><cc> <addr> <name|-> <socks> <octets>  -> hang | exc <Name> | drop | ok <socks> send=<pdus> sdp=<pdus>:<nres>
+        socks: k:st:addr:peer:bound:rq:rbuf:rmiu:vs:vsa:vr:vra joined by ','  (k r|l|d, st 0..6)
+  flow <site> <Exc name>                -> exchange=<..> run=<..> connect=<..>
+  table                                 -> the handler tables as text
+-/
+open NfcVerif NfcVerif.Peer NfcVerif.NfcDep
+
+def ob (o : Option Nat) : String := match o with | none => "-" | some v => toHex [v]
+
+def showDep (req : Bool) : NfcDep.Pdu → String
+  | .dep fmt pni did nad data => s!"dep {fmt} {pni} {ob did} {ob nad} {toHex data}"
+  | .dsl did => s!"dsl {ob did}"
+  | .rls did => s!"rls {ob did}"
+  | .atr body =>
+    let n := if req then 14 else 15
+    let pp := (body[n - 1]?).getD 0
+    s!"atr {toHex (body.take 10)} {toHex ((body.drop 10).take (n - 10))} {toHex (if (pp / 2) % 2 = 1 then body.drop n else [])}"
+  | .psl args => s!"psl {toHex args}"
+
+def flag? (s : String) : Option Bool := if s = "1" then some true else if s = "0" then some false else none
+
+def joinC (l : List String) : String := if l.isEmpty then "-" else ",".intercalate l
+
+def showCall (c : T3Emu.Call) : String :=
+  s!"{if c.w then "w" else "r"}{c.bn}:{if c.b then 1 else 0}:{if c.e then 1 else 0}"
+
+def t3Raw (fix : Bool) (ids store cmd : Bytes) : String :=
+  let e : T3Emu.Emu := ⟨ids.take 8, (ids.drop 8).take 8, ids.drop 16, store⟩
+  match (if fix then processCommandR e cmd else T3Emu.processCommand e cmd) with
+  | .error x => "exc " ++ x.name
+  | .ok (r, st, log) =>
+    "ok " ++ (match r with | none => "none" | some b => toHex b) ++ " store=" ++ toHex st
+      ++ " calls=" ++ joinC (log.map showCall)
+
+def showCfg : Option LinkCfg → String
+  | none => "False"
+  | some c => s!"True ver={c.ver} miu={c.miu} lto={c.lto} wks={c.wks} lsc={c.lsc} dpc=0"
+
+def stOf (n : Nat) : St :=
+  match n with
+  | 0 => .shutdown | 1 => .closed | 2 => .listen | 3 => .connect | 4 => .established | 5 => .disconnect | _ => .closeWait
+
+def stNum : St → Nat
+  | .shutdown => 0 | .closed => 1 | .listen => 2 | .connect => 3 | .established => 4 | .disconnect => 5 | .closeWait => 6
+
+def parseSock (s : String) : Option Sock :=
+  match s.splitOn ":" with
+  | [k, st, addr, peer, bound, rq, rbuf, rmiu, vs, vsa, vr, vra] =>
+    let kind := if k = "r" then Kind.raw else if k = "l" then Kind.ldl else Kind.dlc
+    match st.toNat?, addr.toNat?, rq.toNat?, rbuf.toNat?, rmiu.toNat?, vs.toNat?, vsa.toNat?, vr.toNat?, vra.toNat? with
+    | some st, some addr, some rq, some rbuf, some rmiu, some vs, some vsa, some vr, some vra =>
+      some ⟨kind, stOf st, addr, peer.toNat?, bound = "1", rq, rbuf, rmiu, vs, vsa, vr, vra, []⟩
+    | _, _, _, _, _, _, _, _, _ => none
+  | _ => none
+
+def showP : Pdu.SPdu → String
+  | .dm d s r => s!"DM {d} {s} {r}"
+  | .frmr d s fl pt ns nr vs vr vsa vra => s!"FRMR {d} {s} {fl} {pt} {ns} {nr} {vs} {vr} {vsa} {vra}"
+  | p => s!"P{p.ptype} {p.dsap} {p.ssap}"
+
+def showPs (l : List Pdu.SPdu) : String := if l.isEmpty then "-" else "|".intercalate (l.map showP)
+
+def showSock (s : Sock) : String := s!"{stNum s.st}:{s.rq}:{s.vsa}:{s.vr}:{showPs s.sq}"
+
+def sapCmd (fx : Fix) (addr : Nat) (name : Option Bytes) (socks : List Sock) (octets : Bytes) : String :=
+  match Pdu.Impl.decode octets with
+  | .error e => "exc " ++ e.name
+  | .ok p =>
+    let tab : List Entry := (List.replicate 64 Entry.empty).set 1 (.sdp [] 0) |>.set addr (.sap ⟨socks, []⟩)
+    let snl : List (Bytes × Nat) := ("urn:nfc:sn:sdp".toUTF8.toList.map (·.toNat), 1) ::
+      (match name with | some n => [(n, addr)] | none => [])
+    match dispatch fx ⟨tab, snl⟩ p with
+    | .error e => "exc " ++ e.name
+    | .ok none => "hang"
+    | .ok (some w) =>
+      let sdp := match w.tab[1]? with | some (.sdp dm n) => s!"{showPs dm}:{n}" | _ => "?"
+      match w.tab[addr]? with
+      | some (.sap s) => s!"ok {joinC (s.socks.map showSock)} send={showPs s.sendList} sdp={sdp}"
+      | _ => s!"ok ? sdp={sdp}"
+
+def excOfName (n : String) : Option Exc :=
+  [Exc.index, .value, .type_, .struct, .key, .attr, .unbound, .recursion, .assertion, .runtime,
+   .decodeError, .encodeError, .timeout, .transmission, .protocol, .brokenLink, .unsupportedTarget, .commError,
+   .io 5, .llcp 32, .systemExit, .keyboardInterrupt].find? (fun e => e.name = n)
+
+def showEnd : End → String
+  | .returned => "returns"
+  | .raised e => "raises " ++ e.name
+
+def showFlow : Option Flow → String
+  | none => "continues"
+  | some f => showEnd f.ending ++ (if f.terminated then " terminated" else " not-terminated")
+
+/-- `flow x <Exc>`: the exception is raised by mac.exchange/pdu.decode inside llc.exchange;
+    `flow d <Exc>`: by dispatch/collect; `flow a <Exc>`: by llc.activate; `flow c <Exc>`: by
+    tag.process_command; `flow s <Exc>`: by tag.send_response -/
+def flowCmd (site : String) (e : Exc) : String :=
+  if site = "x" then
+    let r := runLoop (α := Unit) (.error e) (fun _ => .ok ())
+    s!"exchange={match llcExchange (α := Unit) (.error e) with | .ok _ => "None" | .error x => "raises " ++ x.name} run={showFlow r} connect={showFlow (connectLlcp (.ok true) r)}"
+  else if site = "d" then
+    let r := runLoop (α := Unit) (.ok ()) (fun _ => .error e)
+    s!"run={showFlow r} connect={showFlow (connectLlcp (.ok true) r)}"
+  else if site = "a" then s!"connect={showFlow (connectLlcp (.error e) none)}"
+  else if site = "c" then s!"card={match cardTurn (α := Unit) (.error e) (.ok ()) with | none => "continues" | some x => showEnd x}"
+  else if site = "s" then s!"card={match cardTurn (α := Unit) (.ok ()) (.error e) with | none => "continues" | some x => showEnd x}"
+  else "bad-op"
+
+def allExc : List Exc :=
+  [.index, .value, .type_, .struct, .key, .attr, .runtime, .decodeError, .encodeError, .timeout, .transmission,
+   .protocol, .brokenLink, .unsupportedTarget, .commError, .io 5, .llcp 32, .systemExit, .keyboardInterrupt]
+
+/-- handler tables: which exception classes each `try` catches -/
+def tableText : String :=
+  let names (p : Exc → Bool) := ",".intercalate ((allExc.filter p).map Exc.name)
+  s!"llc.exchange catches [{names (fun e => Peer.isComm e || isPduError e)}] connect catches [{names connectCatches}] " ++
+  s!"run-loop io [{names isIO}] card continue [{names (fun e => Peer.isComm e && e != .brokenLink)}]"
+
+def handle (line : String) : String :=
+  match line.splitOn " " with
+  | ["dep", fx, b, r, h] => match flag? fx, flag? b, flag? r, parseHex h with
+    | some fx, some b, some r, some f => showPy (showDep r) (decodeFrameV fx b r f) | _, _, _, _ => "bad-op"
+  | ["rtox", fx, h] => match flag? fx, parseHex h with
+    | some fx, some d => showPy toString (rtoxOf fx d) | _, _ => "bad-op"
+  | ["trtox", fx, h] => match flag? fx, parseHex h with
+    | some fx, some d => showPy (fun o => match o with | none => "none" | some v => toString v) (tRtoxOf fx d)
+    | _, _ => "bad-op"
+  | ["desel", fx, b, h] => match flag? fx, flag? b with
+    | some fx, some b =>
+      if h = "none" then showPy (fun _ => "none") (afterDeselect fx none) else
+      match parseHex h with
+      | some f =>
+        (match decodeFrameV fx b true f with
+         | .error e => "exc " ++ e.name
+         | .ok p => showPy (fun o => match o with | none => "none" | some _ => "dep") (afterDeselect fx (some p)))
+      | none => "bad-op"
+    | _, _ => "bad-op"
+  | ["gb", fx, h] => match flag? fx with
+    | some fx => if h = "none" then showPy showCfg (activateGb fx none) else
+      (match parseHex h with | some g => showPy showCfg (activateGb fx (some g)) | none => "bad-op")
+    | none => "bad-op"
+  | ["pdu", h] => match parseHex h with
+    | some d => showPy Pdu.Pdu.text (Pdu.Impl.decode d) | none => "bad-op"
+  | ["t3", fx, ids, st, cmd] => match flag? fx, parseHex ids, parseHex st, parseHex cmd with
+    | some fx, some ids, some st, some cmd => t3Raw fx ids st cmd | _, _, _, _ => "bad-op"
+  | ["sap", fl, addr, name, socks, h] =>
+    match fl.toList, addr.toNat?, (socks.splitOn ",").mapM parseSock, parseHex h with
+    | [a, b], some addr, some socks, some d =>
+      sapCmd ⟨a = '1', b = '1'⟩ addr (if name = "-" then none else parseHex name) socks d
+    | _, _, _, _ => "bad-op"
+  | ["flow", site, n] => match excOfName n with
+    | some e => flowCmd site e | none => "bad-op"
+  | ["table"] => tableText
+  | _ => "bad-op"
+
+def main : IO Unit := runDriver handle
